@@ -117,7 +117,7 @@ func (p *Parser) synchronize() {
 //	fmt.Printf("parsed %d statements with %d errors\n", len(result.Statements), len(result.Errors))
 func ParseMultiWithRecovery(tokens []token.Token) *RecoveryResult {
 	p := GetParser()
-	stmts, errs := p.parseWithRecovery(tokens)
+	stmts, errs := p.parseWithRecovery(tokens, nil)
 	return &RecoveryResult{
 		Statements: stmts,
 		Errors:     errs,
@@ -140,22 +140,27 @@ func ParseMultiWithRecovery(tokens []token.Token) *RecoveryResult {
 //	defer parser.PutParser(p)
 //	stmts, errs := p.ParseWithRecovery(tokens)
 func (p *Parser) ParseWithRecovery(tokens []token.Token) ([]ast.Statement, []error) {
-	return p.parseWithRecovery(tokens)
+	return p.parseWithRecovery(tokens, nil)
 }
 
 // ParseWithRecoveryFromModelTokens parses tokenizer output with error recovery.
 func (p *Parser) ParseWithRecoveryFromModelTokens(tokens []models.TokenWithSpan) ([]ast.Statement, []error) {
-	converted, err := convertModelTokens(tokens)
+	// Keep the position mapping so that every ParseError carries the line and
+	// column of the token the parser stopped at (the language server anchors its
+	// diagnostics on them).
+	result, err := convertModelTokensWithPositions(tokens)
 	if err != nil {
 		return nil, []error{fmt.Errorf("token conversion failed: %w", err)}
 	}
-	return p.parseWithRecovery(converted)
+	stmts, errs := p.parseWithRecovery(result.Tokens, result.PositionMapping)
+	p.positions = nil
+	return stmts, errs
 }
 
 // parseWithRecovery is the internal implementation shared by both public APIs.
-func (p *Parser) parseWithRecovery(tokens []token.Token) ([]ast.Statement, []error) {
+func (p *Parser) parseWithRecovery(tokens []token.Token, positions []TokenPosition) ([]ast.Statement, []error) {
 	p.tokens = tokens
-	p.positions = nil // no position mapping for this input; drop any left by an earlier ParseWithPositions
+	p.positions = positions // nil when the caller has no mapping; never one left by an earlier call
 	p.currentPos = 0
 	if len(tokens) > 0 {
 		p.currentToken = tokens[0]
